@@ -53,7 +53,16 @@ def impl(core, c):
             Ad, fd = G.call_impl(core, c)
         return ("OK", Ad, fd)
     except Exception as e:  # noqa: BLE001
+        lay = (c.get("present") or (None, None, None))[1]
+        if lay and lay.split(":")[1] in G.DTYPE_KINDS and type(e).__name__ == "TypingError":
+            # a dtype combination numba has no typing for is REFUSED loudly at compile time (no numbers are returned): counted,
+            # and the case continues on the float64 arrays (a value is never wrong; a refusal is not a value)
+            REFUSED[lay] = REFUSED.get(lay, 0) + 1
+            return impl(core, dict(c, present=(c["present"][0], None, c["present"][2])))
         return ("ERR", common.exc_code(e), str(e))
+
+
+REFUSED = {}       # dtype presentation -> number of calls numba refused to type (copied into the evidence by run)
 
 
 def oracle(core, c, r=None):
@@ -146,6 +155,18 @@ def presentation_cases(chk, tier, spellings=None, layouts=True):
         key = f"{sp}/{lay or 'C-contiguous'}/{'keyword' if kw else 'positional'}"
         hist[key] = hist.get(key, 0) + 1
         out.append(dict(c, present=(sp, lay, bool(kw)), kinds=tuple(c["kinds"]) + (key,)))
+    return out
+
+
+def dtype_cases(chk, tier):
+    """cases whose array arguments are handed over in integer / narrower float dtypes (G.dtype_plan): same VALUES, so the model
+    (fed the float64 values) and every clause of the property apply unchanged"""
+    out = []
+    hist = chk.cov.setdefault("dtype_presentations", {})
+    for c, lay in G.dtype_plan(chk.seed, tier):
+        key = f"{lay}/{c['kinds'][0]}"
+        hist[key] = hist.get(key, 0) + 1
+        out.append(dict(c, present=("int", lay, False), kinds=tuple(c["kinds"]) + (lay,)))
     return out
 
 
@@ -272,6 +293,11 @@ def run(chk):
         # the same values presented differently: array arguments Fortran-ordered / strided / read-only / aliased, ordinals as enum members
         pcases = presentation_cases(chk, chk.tier, spellings=("enum",) if chk.tier == "quick" else None, layouts=True)
         bad += compare(chk, core, pcases, "derivs")
+        # the same values in integer / binary32 dtypes (axis-aligned grains as 0/+-1 integer matrices, L written with integer literals)
+        dcases = dtype_cases(chk, chk.tier)
+        bad += compare(chk, core, dcases, "derivs")
+        pcases = pcases + dcases
+        chk.cov["dtype_presentations_refused_by_numba"] = dict(REFUSED)
         chk.cov["traces_validated_against_impl"] = len(cases) + len(small) + len(pcases)
     chk.cov["disagreements"] = len(bad)
     if ok and not bad:
